@@ -23,6 +23,14 @@
     every tree of the collection; which of the two runs is decided by `tree_offset is not None` alone;
   * the list returned is the one given as `tree_list=` or a new `cls(label=label, taxon_namespace=taxon_namespace)`.
 
+
+  full data set  (dendropy.datamodel.datasetmodel.DataSet._parse_and_create_from_stream / _parse_and_add_from_stream)
+  * the reader is made for the caller's schema and options, from which only `label`, the two exclusion flags and the namespace keywords are
+    taken out; one unconditional `read_dataset(stream=stream, dataset=<the new data set | self>, taxon_namespace=…, exclude_trees=…,
+    exclude_chars=…)`; the exclusion flags are the caller's, False by default;
+  * the new data set is returned; reading into an existing one returns the growth of its three lists across the read, uses the attached
+    namespace when none is given and refuses a different one.
+
 What the reader does with these arguments (and the no-offset branch's pseudo-factories) is bounded only (bounded/C13.py)."""
 import ast
 import time
@@ -207,6 +215,72 @@ def route_obligations(ctx):
         lb = _bindings(fn, lname) if lname else []
         ok = lname is not None and len(lb) == 2 and sorted(ast.unparse(x) for x in lb) == ["cls(label=label, taxon_namespace=taxon_namespace)", "kwargs.pop('tree_list', None)"]
         emit(p + ".returns-the-list-given-or-a-new-one-of-the-class-asked", ok, target, "returned name %s bound to %s" % (lname, [ast.unparse(x) for x in lb if isinstance(x, ast.expr)]))
+    # ---- DataSet: the full data set route (new object / reading into an existing one)
+    DSM = "dendropy.datamodel.datasetmodel"
+    md = frontend.module(DSM)
+    for meth, dsname in ((SINK, None), ("_parse_and_add_from_stream", "self")):
+        fn = _method(md, "DataSet", meth)
+        target = "%s:DataSet.%s" % (DSM, meth)
+        p = "DataSet.%s" % meth
+        if fn is None:
+            emit(p + ".exists", False, target, "method not found")
+            continue
+        ctx.add_function(target)
+        gr = [n for n in ast.walk(fn) if isinstance(n, ast.Call) and isinstance(n.func, ast.Attribute) and n.func.attr == "get_reader"]
+        ok = len(gr) == 1 and len(gr[0].args) == 1 and _is_name(gr[0].args[0], "schema") and _passes_kwargs(gr[0], fn) and len(gr[0].keywords) == 1
+        emit(p + ".reader-made-for[schema, **kwargs]", ok, target, "get_reader call: %s" % (ast.unparse(gr[0]) if gr else "none"))
+        pops = [n for n in ast.walk(fn) if isinstance(n, ast.Call) and isinstance(n.func, ast.Attribute) and _is_name(n.func.value, "kwargs")]
+        popped = sorted(ast.unparse(c) for c in pops)
+        want = ["kwargs.pop('label', None)"] + (["kwargs.pop('exclude_chars', False)", "kwargs.pop('exclude_trees', False)"] if dsname is None else [])
+        stores = [n for n in ast.walk(fn) if isinstance(n, ast.Subscript) and _is_name(n.value, "kwargs") and isinstance(n.ctx, (ast.Store, ast.Del))]
+        emit(p + ".only[label, exclusion flags, namespace keywords]-are-taken-out-of-the-options", popped == sorted(want) and not stores, target, "calls on kwargs: %s" % popped)
+        rc = _calls(fn, "read_dataset")
+        if dsname is None:
+            mk = [n for n in ast.walk(fn) if isinstance(n, ast.Assign) and isinstance(n.value, ast.Call) and _is_name(n.value.func, "DataSet") and len(n.targets) == 1 and isinstance(n.targets[0], ast.Name)]
+            dsn = mk[0].targets[0].id if len(mk) == 1 and len(_bindings(fn, mk[0].targets[0].id)) == 1 else None
+        else:
+            dsn = "self"
+        ok = len(rc) == 1 and _is_name(_kw(rc[0], "stream"), "stream") and dsn is not None and _is_name(_kw(rc[0], "dataset"), dsn) and \
+            all(_is_name(_kw(rc[0], k), k) for k in ("taxon_namespace", "exclude_trees", "exclude_chars")) and not rc[0].args and \
+            not any(_bindings(fn, k) for k in ("stream", "schema")) and isinstance(fn.body[_stmt_index(fn, rc[0])], ast.Expr)
+        emit(p + ".one-unconditional-read[stream, the data set, taxon_namespace, exclude_trees, exclude_chars]", ok, target, "read_dataset calls: %s" % [ast.unparse(c)[:160] for c in rc])
+        if dsname is None:
+            eb = dict((k, _bindings(fn, k)) for k in ("exclude_trees", "exclude_chars"))
+            ok = all(len(v) == 1 and ast.unparse(v[0]) == "kwargs.pop('%s', False)" % k for k, v in eb.items())
+            emit(p + ".exclusion-flags-are-the-caller's[default False]", ok, target, "bindings: %s" % dict((k, [ast.unparse(x) for x in v if isinstance(x, ast.expr)]) for k, v in eb.items()))
+            rets = [n for n in ast.walk(fn) if isinstance(n, ast.Return)]
+            emit(p + ".returns-the-data-set-read-into", len(rets) == 1 and _is_name(rets[0].value, dsn), target, "returns %s" % [ast.unparse(r.value) if r.value is not None else None for r in rets])
+        else:
+            names = [a.arg for a in fn.args.args]
+            d = dict(zip(names[-len(fn.args.defaults):], fn.args.defaults)) if fn.args.defaults else {}
+            ok = all(isinstance(d.get(k), ast.Constant) and d[k].value is False for k in ("exclude_trees", "exclude_chars")) and \
+                not any(_bindings(fn, k) for k in ("exclude_trees", "exclude_chars"))
+            emit(p + ".exclusion-flags-are-the-caller's[default False]", ok, target, "defaults: %s" % dict((k, ast.unparse(v)) for k, v in d.items()))
+            # returns (growth of taxon_namespaces, tree_lists, char_matrices) across the read
+            rets = [n for n in ast.walk(fn) if isinstance(n, ast.Return)]
+            ok = False
+            if len(rets) == 1 and isinstance(rets[0].value, ast.Tuple) and len(rets[0].value.elts) == 3 and rc:
+                ci = _stmt_index(fn, rc[0])
+                ok = True
+                for e, attr in zip(rets[0].value.elts, ("taxon_namespaces", "tree_lists", "char_matrices")):
+                    if not (isinstance(e, ast.BinOp) and isinstance(e.op, ast.Sub) and isinstance(e.left, ast.Name) and isinstance(e.right, ast.Name)):
+                        ok = False
+                        break
+                    ba, bb = _bindings(fn, e.left.id), _bindings(fn, e.right.id)
+                    if not (len(ba) == 1 and len(bb) == 1 and ast.unparse(ba[0]) == ast.unparse(bb[0]) == "len(self.%s)" % attr):
+                        ok = False
+                        break
+                    ia = [i for i, st in enumerate(fn.body) if isinstance(st, ast.Assign) and st.value is ba[0]]
+                    ib = [i for i, st in enumerate(fn.body) if isinstance(st, ast.Assign) and st.value is bb[0]]
+                    ok = ok and bool(ia and ib) and ib[0] < ci < ia[0]
+            emit(p + ".returns-the-growth-of[taxon_namespaces, tree_lists, char_matrices]", ok, target, "returns %s" % [ast.unparse(r.value) if r.value is not None else None for r in rets])
+            # an attached namespace is used when none is given, and a different one is refused
+            txt = [ast.unparse(st).replace('"', "'") for st in fn.body if isinstance(st, ast.If)]
+            refuse = any("self.attached_taxon_namespace is not taxon_namespace" in t and "raise ValueError" in t for t in txt)
+            use = any(t.startswith("if self.attached_taxon_namespace is not None and taxon_namespace is None:") and "taxon_namespace = self.attached_taxon_namespace" in t for t in txt)
+            tb = _bindings(fn, "taxon_namespace")
+            emit(p + ".the-attached-namespace-is-used-when-none-is-given-and-another-is-refused", refuse and use and len(tb) == 2, target,
+                 "bindings of taxon_namespace: %s" % [ast.unparse(x) for x in tb if isinstance(x, ast.expr)])
     return out
 
 
@@ -241,6 +315,33 @@ def native_offsets_disagree():
     got = [t.as_string("newick").strip() for t in dendropy.TreeList.get(data=nexus, schema="nexus")]
     if got != allt:
         return dict(text=nexus, options={}, route="TreeList.get", got=got, want=allt)
+    # the data set route: DataSet.get against DataSet().read, the exclusion flags, the counts returned, an attached namespace
+    ds2 = dendropy.DataSet()
+    counts = ds2.read(data=nexus, schema="nexus")
+    dump = lambda d: [[t.as_string("newick").strip() for t in tl] for tl in d.tree_lists]  # noqa
+    if dump(ds2) != dump(ds) or tuple(counts) != (len(ds.taxon_namespaces), len(ds.tree_lists), len(ds.char_matrices)):
+        return dict(text=nexus, options={}, route="DataSet.read", got=[dump(ds2), list(counts)], want=[dump(ds), [len(ds.taxon_namespaces), len(ds.tree_lists), len(ds.char_matrices)]])
+    for kw in (dict(exclude_trees=True), dict(exclude_chars=True)):
+        for how in ("get", "read"):
+            if how == "get":
+                d3 = dendropy.DataSet.get(data=nexus, schema="nexus", **kw)
+            else:
+                d3 = dendropy.DataSet()
+                d3.read(data=nexus, schema="nexus", **kw)
+            want = [] if kw.get("exclude_trees") else dump(ds)
+            if dump(d3) != want:
+                return dict(text=nexus, options=kw, route="DataSet." + how, got=dump(d3), want=want)
+    d4 = dendropy.DataSet()
+    ns4 = dendropy.TaxonNamespace()
+    d4.attach_taxon_namespace(ns4)
+    d4.read(data=nexus, schema="nexus")
+    if any(tl.taxon_namespace is not ns4 for tl in d4.tree_lists) or len(d4.taxon_namespaces) != 1:
+        return dict(text=nexus, options={"attached": True}, route="DataSet.read", got="%d namespaces" % len(d4.taxon_namespaces), want="the attached namespace only")
+    try:
+        d4.read(data=nexus, schema="nexus", taxon_namespace=dendropy.TaxonNamespace())
+        return dict(text=nexus, options={"attached": True, "taxon_namespace": "another"}, route="DataSet.read", got="accepted", want="ValueError")
+    except ValueError:
+        pass
     for text, schema in ((nexus, "nexus"), ("(A,(B,C));((A,B),C);\n", "newick")):
         tl = dendropy.TreeList()
         n1 = tl.read(data=text, schema=schema)
